@@ -293,3 +293,54 @@ def logmatmulexp_contract(ctx):
                extra_terms=[exp(res), exp(log(S_real)), exp(-XS(i)), exp(-YS(j)), exp(XS(i)), exp(YS(j)), exp(log(S_real) + XS(i) + YS(j)), exp(XS(i) + YS(j))],
                cuts=[("sum_positive", S_real > 0), ("exp_log", exp(log(S_real)) == S_real), ("shifts_cancel", exp(-XS(i)) * exp(XS(i)) * exp(-YS(j)) * exp(YS(j)) == 1)],
                replay=dict(kind="simple", cls="BlockAutoregressiveNetwork", vars={}))
+
+
+@family("bnaf/_CallableToBijection", ["C02", "C07"])
+def callable_to_bijection(ctx):
+    """the scalar activation wrapper of BNAF: transform is the callable, the reported log-determinant is log|f'(x)| where f' is the
+    derivative autodiff returns (T3: eqx.filter_value_and_grad(f)(x) == (f(x), f'(x)))"""
+    it = ctx.interp
+    props = ["C02", "C07"]
+    q = f"{Q}._CallableToBijection"
+    cls = it.repo_class(q)
+    log = UF["log"]
+    FN, DFN = z3.Function("activation_fn", R, R), z3.Function("activation_fn_derivative", R, R)
+    x = z3.Real("x")
+    calls = []
+
+    def fn(v):
+        calls.append(v)
+        return SV(FN(to_real(lift(v))))
+
+    def value_and_grad(f, **kw):
+        if kw:
+            raise Untranslatable("filter_value_and_grad with options")
+
+        def vg(v):
+            if f is not fn:
+                raise Untranslatable("value_and_grad of something other than the wrapped callable")
+            return f(v), SV(DFN(to_real(lift(v))))
+
+        return vg
+
+    it.lib.overrides["equinox.filter_value_and_grad"] = value_and_grad
+    it.lib.overrides["jax.value_and_grad"] = value_and_grad
+    it.lib.overrides["jax.numpy.abs"] = lambda v: SV(z3.If(lift(v) >= 0, lift(v), -lift(v)))
+    paths = it.explore(lambda: cls(fn))
+    okp = [p for p in paths if p.outcome == "return"]
+    ctx.oblige("C07/_CallableToBijection.__init__/struct/accepts_a_callable", len(okp) == 1 and len(paths) == 1, [], props, kind="struct", fn=q + ".__init__")
+    if len(okp) != 1:
+        return
+    o = okp[0].value
+    rp = dict(kind="c09", what="bnaf", vars={})
+    pt = single(it.explore(lambda: method(cls, "transform")(o, SV(x))), ctx, "C07/_CallableToBijection.transform/struct/straight_line", props, q + ".transform")
+    if pt is not None:
+        ctx.oblige("C07/_CallableToBijection.transform/post/is_the_callable", lift(pt.value) == FN(x), pt.cond, props, fn=q + ".transform", replay=rp)
+    pl = single(it.explore(lambda: method(cls, "transform_and_log_det")(o, SV(x))), ctx, "C02/_CallableToBijection.transform_and_log_det/struct/straight_line", props, q + ".transform_and_log_det")
+    if pl is not None and isinstance(pl.value, tuple) and len(pl.value) == 2:
+        y, ld = pl.value
+        ctx.oblige("C02/_CallableToBijection.transform_and_log_det/post/same_point_as_transform", lift(y) == FN(x), pl.cond, props, fn=q + ".transform_and_log_det", replay=rp)
+        ctx.oblige("C02/_CallableToBijection.transform_and_log_det/post/log_abs_derivative", lift(ld) == log(z3.If(DFN(x) >= 0, DFN(x), -DFN(x))), pl.cond, props, fn=q + ".transform_and_log_det", replay=rp)
+        ctx.control("C02/_CallableToBijection.transform_and_log_det/control/log_of_signed_derivative", lift(ld) == log(DFN(x)), pl.cond, props, fn=q + ".transform_and_log_det")
+    elif pl is not None:
+        ctx.oblige("C02/_CallableToBijection.transform_and_log_det/struct/returns_a_pair", False, [], props, kind="applicability", fn=q + ".transform_and_log_det")
